@@ -302,11 +302,30 @@ def hunts(quick, focus, timeout):
                     continue
                 for n in range(1, 65):
                     grid.append(({k: v}, n))
+        # degenerate declared ranges (x_min == x_max == x): valid settings; more agents, so that every success count occurs
+        degen = []
+        for k in sorted(WR[o]['hyper']):
+            if k.endswith('_min') and k[:-4] + '_max' in WR[o]['hyper']:
+                base, kmax = k[:-4], k[:-4] + '_max'
+                lo = min(WR[o]['hyper'][k]['lo'], WR[o]['hyper'][kmax]['lo'])
+                hi = max(WR[o]['hyper'][k]['hi'], WR[o]['hyper'][kmax]['hi'])
+                for v in [x / 10.0 for x in range(0, 11)] + [0.729, 0.25, 0.333]:
+                    if lo <= v <= hi:
+                        dd = {k: v, kmax: v}
+                        if base in WR[o]['hyper']:
+                            dd[base] = v
+                        for n in (1, 2, 5, 11, 30):
+                            degen.append((dd, n))
         n_ad = len(grid) if len(opts) <= 3 else (24 if quick else 400)
         if n_ad < len(grid):
             grid = rnd.sample(grid, n_ad)
+        n_dg = len(degen) if len(opts) <= 3 else (12 if quick else 120)
+        if n_dg < len(degen):
+            degen = rnd.sample(degen, n_dg)
+        n_plain = len(grid)
+        grid = grid + degen
         for i, (delta, n) in enumerate(grid):
-            c = {'objective': ['sphere', 'shifted', 'negative'][i % 3], 'ret': 'pyfloat', 'box': ['sym10', 'unit'][i % 2], 'agents': 2,
+            c = {'objective': ['sphere', 'shifted', 'negative'][i % 3], 'ret': 'pyfloat', 'box': ['sym10', 'unit'][i % 2], 'agents': 2 if i < n_plain else 10,
                  'n_variables': 1, 'n_dimensions': 1, 'n_iterations': n, 'draws': 'seeded', 'hp': 'default',
                  'store_best_only': True, 'hook': 'observe'}
             cfg = make(o, 'search', c, 9200 + i, min(timeout, 3.0))
